@@ -228,8 +228,7 @@ def _default_for(r, ctype):
 
 def _gen_overloads(r, lib, name, role, cls, novl, allow_defaults=True, rtypes=None, maxargs=3):
     """Overloads of one name such that no two offered signatures have the same C++ parameter types
-    (C++ itself would reject such a call as ambiguous) and const char* -> bool cannot hijack a
-    std::string overload."""
+    (C++ itself would reject such a call as ambiguous)."""
     fns = []
     seen = set()
     tries = 0
@@ -269,30 +268,6 @@ def _gen_overloads(r, lib, name, role, cls, novl, allow_defaults=True, rtypes=No
     return fns
 
 
-def _hijack_free(fns):
-    """const char* converts to bool by a standard conversion, which beats the user conversion to
-    std::string: an overload set offering (.., bool, ..) next to (.., std::string, ..) at the same
-    position and count makes the emitted call `f(name)` pick the bool overload in C++.  Such sets
-    are recorded separately (see c18.py); the ordinary generator avoids them."""
-    sigs = []
-    for f in fns:
-        for n in f.calls():
-            sigs.append([p.kind for p in f.params[:n]])
-    for a in sigs:
-        for b in sigs:
-            if len(a) == len(b) and a != b and "string" in a:
-                # could b accept a's arguments with const char* in the string positions?
-                ok = True
-                for x, y in zip(a, b):
-                    if x == "string" and y not in ("string", "bool"):
-                        ok = False
-                    if x != "string" and y == "string":
-                        ok = False
-                if ok and any(x == "string" and y == "bool" for x, y in zip(a, b)):
-                    return False
-    return True
-
-
 def gen_lualib(r, name, nfree=None, nclasses=None, with_ns=None, rich=False):
     lib = LuaLib(name)
     nfree = r.randrange(3, 7) if nfree is None else nfree
@@ -305,7 +280,7 @@ def gen_lualib(r, name, nfree=None, nclasses=None, with_ns=None, rich=False):
         while True:
             save = lib.nfn
             fns = _gen_overloads(r, lib, nm, "free", None, novl)
-            if fns and _hijack_free(fns):
+            if fns:
                 break
             lib.nfn = save
         free_groups.append(Group(nm, "free", None, fns))
@@ -333,7 +308,7 @@ def gen_lualib(r, name, nfree=None, nclasses=None, with_ns=None, rich=False):
         while True:
             save = lib.nfn
             ctors = _gen_overloads(r, lib, "ctor", "ctor", cname, r.choice([1, 2, 2, 3]))
-            if ctors and _hijack_free(ctors):
+            if ctors:
                 break
             lib.nfn = save
         fns.extend(ctors)
@@ -346,7 +321,7 @@ def gen_lualib(r, name, nfree=None, nclasses=None, with_ns=None, rich=False):
             while True:
                 save = lib.nfn
                 ms = _gen_overloads(r, lib, mn, "method", cname, r.choice([1, 1, 2, 3]))
-                if ms and _hijack_free(ms):
+                if ms:
                     break
                 lib.nfn = save
             fns.extend(ms)
@@ -366,7 +341,7 @@ def gen_lualib(r, name, nfree=None, nclasses=None, with_ns=None, rich=False):
             while True:
                 save = lib.nfn
                 fs = _gen_overloads(r, lib, nm, "free", None, r.choice([1, 2]))
-                if fs and _hijack_free(fs):
+                if fs:
                     break
                 lib.nfn = save
             nfs.extend(fs)
@@ -395,8 +370,11 @@ def fixed_lualib(name="luafix"):
     h = mk("h", "free", None, [[P("bool")]], ["std::string"])
     same = mk("same", "free", None, [[P("int")], [P("double")]], ["int", "double"])
     z = mk("z", "free", None, [[]], ["void"])
-    lib.free = f0 + g[:1] + h + g[1:] + same + z
-    for nm, fs in (("f0", f0), ("g", g), ("h", h), ("same", same), ("z", z)):
+    # const char* converts to bool by a standard conversion: the string overload must still be reached
+    hj = mk("hj", "free", None, [[P("const std::string &")], [P("bool")], [P("bool"), P("const std::string &")]],
+            ["void", "void", "int"])
+    lib.free = f0 + g[:1] + h + g[1:] + same + z + hj
+    for nm, fs in (("f0", f0), ("g", g), ("h", h), ("same", same), ("z", z), ("hj", hj)):
         lib.groups.append(Group(nm, "free", None, fs))
     ct = mk("ctor", "ctor", "Foo", [[], [P("int")]], ["Foo", "Foo"])
     dt = mk("dtor", "dtor", "Foo", [[]], ["void"])
